@@ -103,6 +103,9 @@ func (e *Engine) verifyFunc(bc *BoundContract) (res *FuncResult) {
 	fr.st, fr.reach = st, b.True()
 	fr.entry = entry
 	for _, rq := range bc.C.Requires {
+		if rq.Assumed {
+			cx.trust(fmt.Sprintf("entry invariant of %s (holds between operations by an invariant over histories; assumed, not checked at call sites): %s", bc.Short(), rq.Text))
+		}
 		if g := fr.evalClause(env, rq); g != nil {
 			cx.assume(g)
 		}
